@@ -27,15 +27,22 @@ func (e *E2eProcessingLatencyAggregate) UnmarshalJSON(b []byte) error {
 		return err
 	}
 
+	// the document comes from the network: a null entry decodes to a nil map, which
+	// cannot be written to (here or later in Add) - such entries are dropped
+	percentiles := resp.Percentiles[:0]
 	for _, p := range resp.Percentiles {
+		if p == nil {
+			continue
+		}
 		p["min"] = p["value"]
 		p["max"] = p["value"]
 		p["average"] = p["value"]
 		p["count"] = float64(resp.Count)
+		percentiles = append(percentiles, p)
 	}
 
 	e.Count = resp.Count
-	e.Percentiles = resp.Percentiles
+	e.Percentiles = percentiles
 	e.Topic = resp.Topic
 	e.Channel = resp.Channel
 	e.Addr = resp.Addr
